@@ -43,7 +43,16 @@ theorem hiddenFS_call_gen {σ} (hp : List Path) (inner : FSI σ) (s : σ) (c : C
 
 theorem hiddenFS_call_removeAll {σ} (hp : List Path) (inner : FSI σ) (s : σ) (n : Path) :
     (hiddenFS hp inner).call s (.removeAll n) =
-      liftU (hiddenRemoveAll (HiddenFS.mk hp) inner 64 s n) := rfl
+      liftU (hiddenRemoveAll (HiddenFS.mk hp) inner 64 s (rmName n)) := rfl
+
+/-- the hidden check cleans its argument itself: the spelling `HiddenFS.RemoveAll` settles on does
+not change it -/
+theorem isHidden_rmName (n : Path) (hs : List Path) : HiddenFS.isHidden (rmName n) hs = HiddenFS.isHidden n hs := by
+  unfold rmName
+  split
+  · rfl
+  · unfold HiddenFS.isHidden
+    rw [clean_idempotent]
 
 theorem hiddenFS_hwrite {σ} (hp : List Path) (inner : FSI σ) : (hiddenFS hp inner).hwrite = inner.hwrite := rfl
 theorem hiddenFS_hread {σ} (hp : List Path) (inner : FSI σ) : (hiddenFS hp inner).hread = inner.hread := rfl
